@@ -113,6 +113,14 @@ def generic_judgement(res, kind, dialect, text, outcome, replay_extra=None):
             res.violation('lineno_out_of_range', '%s: lineno %r for a text of %d lines (%s)' % (
                 type(exc).__name__, ln, nlines(text), exc), replay=rp, mutation=kind)
             return False
+        try:
+            str(exc)
+            repr(exc)
+        except Exception as e2:
+            res.violation('error_unprintable', '%s cannot be rendered: %r' % (type(exc).__name__, e2), replay=rp,
+                          mutation=kind)
+            return False
+        res.count('errors_rendered')
     elif not isinstance(out, list):
         res.violation('bad_return', 'parse returned %r' % (out,), replay=rp)
         return False
